@@ -25,11 +25,11 @@ def check(chk: Check) -> None:
                             'passes None (error at the very end of the text)', floor=2)
     R2 = chk.rule('C16.R2', 'the lexical-error hook raises ParserError unconditionally', floor=1)
     R3 = chk.rule('C16.R3', 'every reserved word without a grammar role is the sole symbol of a production whose action '
-                            'raises ParserError; no grammar action raises anything else', floor=7)
+                            'raises ParserError; no grammar action raises anything else', floor=4)
     R4 = chk.rule('C16.R4', 'every lookup in the scoped names made by an eval method (incl. the load half of a compound '
-                            'assignment) converts LookupError into ParserError', floor=6)
+                            'assignment) converts LookupError into ParserError', floor=2)
     R5 = chk.rule('C16.R5', 'missing key / index / empty pop in builtins: every keyed read of an argument container and '
-                            'every list pop converts the lookup error into ParserError (= C14.R3)', floor=3)
+                            'every list pop converts the lookup error into ParserError (= C14.R3)', floor=2)
     R6 = chk.rule('C16.R6', 'the size-cap and op-budget errors are ParserErrors', floor=2)
     R7 = chk.rule('C16.R7', 'nothing that is not an ordinary Exception: no raise of BaseException/SystemExit/'
                             'KeyboardInterrupt/GeneratorExit, no interpreter-exit call, every exception class derives '
